@@ -92,6 +92,7 @@ class Check:
             print("VIOLATION property=%s replay=%s" % (self.pid, path))
             print("  rule: %s" % v["msg"])
             print("  key:  %s" % v["key"])
+        self.cov["known_findings"] = sorted(seen_known)
         self._write_evidence(explanation, checker_cmd, len(new), known_hits=len(seen_known))
         n_ok = sum(1 for _, ok, _ in self.obligations if ok)
         print("%s: %d rule instances evaluated, %d satisfied, %d known findings, %d new violations (%.1fs)" % (
